@@ -7,6 +7,7 @@ import Uom.Proofs.FlFold
 import Uom.Proofs.BodyEq.Conv
 import Uom.Proofs.OracleSound
 import Uom.Proofs.BodyEq.Powi
+import Uom.Proofs.BodyEq.UnitMac
 /-!
 # C03 — unit conversion on construction and read-back is numerically faithful (floats)
 
@@ -229,5 +230,25 @@ theorem src_powi_float (f : Fmt) (c : Fl) (e : Int) :
       (.val (.host (flPowi f c e)), []) := powi_float_eq_flPowi f c e
 
 end SourceTieRx
+
+/-! ### tie to the source: what a unit publishes for float storage (`unit!`, /repo/src/unit.rs, this run) -/
+section SourceTieUnit
+open Uom.Rx Uom.Gen.RxBody Uom.BodyEq.UnitMac
+
+/-- `<unit as Conversion<f32|f64>>::coefficient()` is the declared factor … -/
+theorem src_unit_coefficient_float {F T R B : Type} (zero : F) (negF : F → F) (d : Decl F) (L : Lib F T R B) :
+    run (envUnit zero negF d L) unit_Conversion_V_for_unit_coefficient_Float [] = (.val (.host (.f d.factor)), []) :=
+  coefficient_float zero negF d L
+
+/-- … and `constant(op)` the declared constant, or **−0.0 for `Add` and +0.0 for `Sub`** when none is declared:
+    exactly the pair for which `x + c` and `x − c` are the bit-exact identity (`new_id`, `get_id` above) -/
+theorem src_unit_constant_float {F T R B : Type} (zero : F) (negF : F → F) (d : Decl F) (L : Lib F T R B) (add : Bool) :
+    run (envUnit zero negF d L) unit_Conversion_V_for_unit_constant_Float [.ctor0 (opCode add)] =
+      (.val (.host (.f (match d.const with
+        | some k => k
+        | none => if add then negF zero else zero))), []) :=
+  constant_float zero negF d L add
+
+end SourceTieUnit
 
 end Uom.C03
